@@ -5,10 +5,12 @@ From TL Require Import Lib.Base Lib.GenTypes Gen.IgnoreGen Model.PyStr Model.Ign
 
 (* ---------- the generated literals the proofs rely on (fail when the source changes) ---------- *)
 Lemma gen_markers :
-  file_marker_needles = ["# thailint: ignore-file"; "# design-lint: ignore-file"] /\ file_marker_lowered = true /\
+  file_marker_needles = ["# thailint: ignore-file"; "# design-lint: ignore-file"; "// thailint: ignore-file"; "// design-lint: ignore-file"] /\
+  file_marker_lowered = true /\
   line_marker_needles = ["# thailint: ignore"; "# design-lint: ignore"; "// thailint: ignore"; "// design-lint: ignore"] /\
   line_marker_lowered = true /\
-  next_marker_needles = ["# thailint: ignore-next-line"; "# design-lint: ignore-next-line"] /\ next_marker_lowered = false /\
+  next_marker_needles = ["# thailint: ignore-next-line"; "# design-lint: ignore-next-line"; "// thailint: ignore-next-line"; "// design-lint: ignore-next-line"] /\
+  next_marker_lowered = true /\
   start_marker_comment_prefixes = ["#"; "//"] /\ start_marker_keyword = "ignore-start" /\ start_marker_tags = ["thailint:"; "design-lint:"] /\
   end_marker_comment_prefixes = ["#"; "//"] /\ end_marker_keyword = "ignore-end" /\ end_marker_tags = ["thailint:"; "design-lint:"].
 Proof. repeat split; reflexivity. Qed.
@@ -16,14 +18,15 @@ Proof. repeat split; reflexivity. Qed.
 Lemma gen_regexes :
   re_file_bracket = ("ignore-file", true) /\ re_file_space = ("ignore-file", true) /\
   re_line_bracket = ("ignore", true) /\ re_line_space = ("ignore", true) /\
-  re_start_space = ("ignore-start", false) /\ re_next_bracket = ("ignore-next-line", false) /\
+  re_start_space = ("ignore-start", false) /\ re_next_bracket = ("ignore-next-line", true) /\
+  file_bare_general = true /\ line_bare_suffixes = ["thailint: ignore"; "design-lint: ignore"] /\
   ignore_all_needle = "ignore-all" /\ start_default_rules = ["*"] /\ rm_bracket_sep = "," /\ rm_star_rule = "*" /\ rm_wildcard = "*".
 Proof. repeat split; reflexivity. Qed.
 
 Lemma gen_arith :
   header_scan_lines = 10 /\ valid_lo = 0 /\ valid_lo_cmp = CLt /\ valid_hi_cmp = CLe /\
   prev_min = 1 /\ prev_min_cmp = CLe /\ prev_offset = 2 /\
-  cur_lo = 0 /\ cur_lo_cmp = CLe /\ cur_hi_cmp = CGt /\ cur_offset = 1 /\ block_end_cmp = CGt /\ block_first_line = 1.
+  cur_lo = 0 /\ cur_lo_cmp = CLe /\ cur_hi_cmp = CGt /\ cur_offset = 1 /\ block_end_cmp = None /\ block_first_line = 1.
 Proof. repeat split; reflexivity. Qed.
 
 (* ---------- decomposition of a directive line around its key word ---------- *)
